@@ -43,7 +43,7 @@ NSHARDS = int(os.environ.get("VERIF_DEV_SHARDS", "16"))   # development aid (mut
 
 
 def shards(tier, seed, scale):
-    per = 60 if tier == "quick" else 3500
+    per = 60 if tier == "quick" else 2000
     return common.mk_shards(NSHARDS, seed, tier, per * 16 // NSHARDS, scale, salt="c48")
 
 
@@ -126,12 +126,7 @@ class History(object):
         """a fresh allocation [addr, addr+size) has been returned"""
         self.rec.ev()
         ok = True
-        zero_here = any(r["addr"] == addr and r["size"] == 0 for r in self.live)
-        if zero_here:
-            # a page sharing its address with an empty page cannot be looked up (C24's finding);
-            # the duplicate address itself is reported below
-            self.rec.count("mapped_check_skipped_empty_alias")
-        elif size and not self.vm.is_mapped(addr, size):
+        if size and not self.vm.is_mapped(addr, size):
             ok = False
             self.fail("%s: returned region is not mapped for the requested size%s" % (mech, tag),
                       "%s(size=0x%x) returned 0x%x" % (kind, size, addr))
@@ -356,8 +351,6 @@ class History(object):
     def audit(self):
         self.rec.ev()
         for reg in self.live:
-            if any(x["addr"] == reg["addr"] and x["size"] == 0 for x in self.live):
-                continue
             if reg["size"] and not self.vm.is_mapped(reg["addr"], reg["size"]):
                 self.fail("final audit: a live allocation is no longer fully mapped",
                           "%s at 0x%x size 0x%x" % (reg["kind"], reg["addr"], reg["size"]))
